@@ -89,7 +89,9 @@ def read_chart(ch, fmt):
     _r("Chart.has_title", lambda: ch.has_title)
     _r("Chart.chart_style", lambda: ch.chart_style)
     if _r("Chart.has_title(2)", lambda: ch.has_title):
-        _r("ChartTitle.has_text_frame", lambda: ch.chart_title.has_text_frame)
+        # the documented guard: text_frame creates a rich-text body unless has_text_frame says there is one already
+        if _r("ChartTitle.has_text_frame", lambda: ch.chart_title.has_text_frame):
+            _r("ChartTitle.text_frame.text (guarded by has_text_frame)", lambda: ch.chart_title.text_frame.text)
     for pl in _r("Chart.plots", lambda: list(ch.plots)) or []:
         _r("Plot.categories", lambda: list(pl.categories))
         _r("Plot.categories.flattened_labels", lambda: pl.categories.flattened_labels)
@@ -117,7 +119,8 @@ def read_chart(ch, fmt):
                 if pt is not None:
                     dl = _r("Point.data_label", lambda: pt.data_label)
                     if dl is not None:
-                        _r("DataLabel.has_text_frame", lambda: dl.has_text_frame)
+                        if _r("DataLabel.has_text_frame", lambda: dl.has_text_frame):
+                            _r("DataLabel.text_frame.text (guarded by has_text_frame)", lambda: dl.text_frame.text)
                         _r("DataLabel.position", lambda: dl.position)
             if fmt:
                 _r("Series.format.fill.type", lambda: se.format.fill.type)
@@ -353,6 +356,59 @@ def orphan_jump_target(prs):
             rid = sld.get("{http://schemas.openxmlformats.org/officeDocument/2006/relationships}id")
             lst.remove(sld)
             prs.part.drop_rel(rid)
+
+
+def link_chart_titles(prs):
+    """Pre-state: every chart's title is linked to a worksheet cell (c:title/c:tx/c:strRef, PowerPoint's "title from a
+    cell"), i.e. a title exists but holds no rich-text body."""
+    from pptx.oxml import parse_xml
+
+    C = "http://schemas.openxmlformats.org/drawingml/2006/chart"
+    n = 0
+    for ch in _charts(prs):
+        chart_el = ch._chartSpace.find("{%s}chart" % C)
+        if chart_el is None:
+            continue
+        for t in chart_el.findall("{%s}title" % C):
+            chart_el.remove(t)
+        for t in chart_el.findall("{%s}autoTitleDeleted" % C):
+            chart_el.remove(t)
+        chart_el.insert(0, parse_xml(
+            '<c:title xmlns:c="%s"><c:tx><c:strRef><c:f>Sheet1!$B$1</c:f><c:strCache><c:ptCount val="1"/><c:pt idx="0"><c:v>Linked title</c:v></c:pt>'
+            '</c:strCache></c:strRef></c:tx><c:overlay val="0"/></c:title>' % C))
+        n += 1
+    return n
+
+
+def strip_notes_master_ref(data):
+    """Pre-state (on package bytes): the presentation part no longer refers to the notes master (relationship and
+    p:notesMasterIdLst removed); the master stays reachable from the notes slides only.  -> bytes, or None when the deck has
+    no notes slide."""
+    import zipfile
+
+    from lxml import etree
+
+    zin = zipfile.ZipFile(io.BytesIO(data))
+    names = zin.namelist()
+    if not any(n.startswith("ppt/notesSlides/") for n in names) or "ppt/_rels/presentation.xml.rels" not in names:
+        return None
+    out = io.BytesIO()
+    with zipfile.ZipFile(out, "w", zipfile.ZIP_DEFLATED) as zout:
+        for n in names:
+            blob = zin.read(n)
+            if n == "ppt/_rels/presentation.xml.rels":
+                root = etree.fromstring(blob)
+                for rel in list(root):
+                    if rel.get("Type", "").endswith("/notesMaster"):
+                        root.remove(rel)
+                blob = etree.tostring(root, xml_declaration=True, encoding="UTF-8", standalone=True)
+            elif n == "ppt/presentation.xml":
+                root = etree.fromstring(blob)
+                for el in root.findall("{%s}notesMasterIdLst" % P):
+                    root.remove(el)
+                blob = etree.tostring(root, xml_declaration=True, encoding="UTF-8", standalone=True)
+            zout.writestr(n, blob)
+    return out.getvalue()
 
 
 # ------------------------------------------------------------------ canonical graph
@@ -690,6 +746,15 @@ def run_unit(unit, tier, seed, acc):
                     except Exception as e:  # noqa
                         acc.count("deck_not_traversable:%s" % type(e).__name__)
                         acc.note("%s: %s: %s" % (d, type(e).__name__, str(e)[:100]))
+            stripped = strip_notes_master_ref(data)
+            if stripped is not None:  # the same deck with the presentation part no longer referring to its notes master
+                rnd = env.rng("C12", d, seed, "stripped")
+                w = {"deck": d, "order": 0, "passes": ["basic", "format"], "nsaves": 1, "stripped_notes_master_ref": True}
+                try:
+                    one_case(stripped, os.path.basename(d) + " (notes master referred to by notes slides only)", rnd, ("basic", "format"), 1, acc, w)
+                    acc.count("corpus_decks_with_stripped_notes_master_reference")
+                except Exception as e:  # noqa
+                    acc.count("deck_not_traversable:%s" % type(e).__name__)
     else:
         from vlib import histories
         from vlib.acc import Acc
@@ -704,8 +769,17 @@ def run_unit(unit, tier, seed, acc):
                     run.run()
                     if i % 3 == 0:
                         orphan_jump_target(run.prs)
+                    if i % 4 == 2 and len(run.prs.slides):  # a notes slide with text, so that the stripped-reference pre-state applies
+                        run.prs.slides[0].notes_slide.notes_text_frame.text = "notes of generated deck %d" % i
+                    if i % 4 == 1 and link_chart_titles(run.prs):
+                        acc.count("generated_decks_with_cell_linked_chart_titles")
                     buf = io.BytesIO()
                     run.prs.save(buf)
+                    if i % 4 == 2:
+                        stripped = strip_notes_master_ref(buf.getvalue())
+                        if stripped is not None:
+                            buf = io.BytesIO(stripped)
+                            acc.count("generated_decks_whose_presentation_does_not_refer_to_the_notes_master")
                 except Exception as e:  # noqa
                     acc.count("generated_deck_failed:%s" % type(e).__name__)
                     continue
@@ -727,6 +801,8 @@ def replay(w, acc):
     elif "deck" in w:
         data = open(os.path.join(env.REPO, w["deck"]), "rb").read()
         rnd = env.rng("C12", w["deck"], env.seed(), w["order"], tuple(w["passes"]))
+        if w.get("stripped_notes_master_ref"):
+            data, rnd = strip_notes_master_ref(data), env.rng("C12", w["deck"], env.seed(), "stripped")
         one_case(data, w["deck"], rnd, tuple(w["passes"]), w["nsaves"], acc, w)
     else:
         run_unit({"kind": "generated", "lo": w["generated"], "hi": w["generated"] + 1}, "quick", w.get("seed", 0), acc)
